@@ -1,6 +1,6 @@
 # replay of a solver counterexample against the real library (exit 1 = reproduces)
 import sys, warnings
-sys.path.insert(0, '/repo')
+sys.path.insert(0, '/tmp/sr/C01-m6')
 warnings.simplefilter('ignore')
 import numpy as np
 from svgpathtools import *
@@ -13,7 +13,7 @@ def NOT_REPRODUCED(msg=''):
     print('not reproduced', msg); sys.exit(0)
 
 
-p = Path(Line((-40-1j), (-40-2j)), Line((-40-2j), (-40+1j)), QuadraticBezier((-40+1j), 0j, (-40-1j)))
+p = Path(Line(-1j, 0j), Line(0j, -2j), Arc(-2j, (7.450580596923828e-09+1j), 0.0, True, True, -1j))
 opts = dict(useSandT=False, use_closed_attrib=True, rel=False)
 d = p.d(**opts)
 try:
